@@ -534,6 +534,7 @@ fn gen(seed: u64, size: &str, path: &str) {
     }
     // (B) until_exhausted with constant non-dyadic ratios
     let n_coll = if !want_short { 0 } else if thorough { 300 } else { 60 };
+    let mut colls: Vec<Vec<Value>> = Vec::new();
     for h in 0..n_coll {
         let interp = if h % 2 == 0 { "floor" } else { "linear" };
         let fmt = FMTS[(h / 2) % 4];
@@ -541,7 +542,7 @@ fn gen(seed: u64, size: &str, path: &str) {
         let len = rng.range(0, 40) as usize;
         let pat = rand_pat(&mut rng, fmt, 1, len.min(16), 1);
         let ratio = rand_ratio(&mut rng, route_via(route), false);
-        execs.push(vec![
+        colls.push(vec![
             json!({"ev":"reset","comp":"conv","cfg":{"interp":interp,"fmt":fmt,"ch":1,"route":route,
                    "pat":pat,"len":len,"ratio":ratio,"ctl":[]}}),
             json!({"ev":"collect","a":{"n":1000}}),
@@ -549,6 +550,22 @@ fn gen(seed: u64, size: &str, path: &str) {
             op("next"),
             op("is_exhausted"),
         ]);
+    }
+    // spread the collections among the histories (the trace is cut into pieces for parallel validation)
+    if !colls.is_empty() {
+        let every = (execs.len() / colls.len()).max(1);
+        let mut mixed = Vec::new();
+        let mut ci = colls.into_iter();
+        for (k, e) in execs.into_iter().enumerate() {
+            mixed.push(e);
+            if k % every == every - 1 {
+                if let Some(c) = ci.next() {
+                    mixed.push(c);
+                }
+            }
+        }
+        mixed.extend(ci);
+        execs = mixed;
     }
     // (C) long runs (drift): constant non-dyadic ratio, the first outputs one by one, then blocks of
     // `run` with a handful of individual outputs between them; the source runs dry near the end
